@@ -19,7 +19,7 @@ EXPLANATION = (
     "are derived (zBot, z_top, zMid) are consumed only by the enumerated groundwater routines; the initial-water-content "
     "interpolation takes its mid-depths from the base column dzsum. C18.d (typestate): the scalars fill_nan derives from the frame (zSoil, nComp) are read, in every "
     "function that receives the user's Soil, only on paths that pass fill_nan() since the entry and since every dz update, and such a "
-    "function returns with the Soil fresh - so the deepening loop tests the real depth of the profile. NOT decided: arbitrary custom dz, pedotransfer "
+    "function returns with the Soil fresh - so the deepening loop tests the real depth of the profile. C18.e: add_layer's two branches compare a depth from the surface (thickness, resp. thickness + a value read from dzsum) with the compartment bottoms under the same rounding (sibling agreement + quantity kinds). NOT decided: arbitrary custom dz, pedotransfer "
     "ranges, numeric interpolation of initial water content.")
 
 DERIVED_CONSUMERS_OK = {
@@ -400,9 +400,93 @@ def rule_d(chk, prog):
     chk.floor("C18.d", n_reads, 1, "reads of fill_nan-derived scalars in functions receiving the Soil")
 
 
+def rule_e(chk, prog):
+    """C18.e (layers are built as specified): Soil.add_layer assigns compartments to a layer by comparing the layer's lower boundary with the
+    compartments' bottom depths (dzsum).
+      sibling agreement: the first-layer branch and the later-layers branch apply the same rounding to both sides of that comparison
+        (0.6 + 0.3 is 0.8999999999999999: an unrounded boundary loses the compartment that ends exactly on it);
+      quantity kinds: the boundary is a depth from the surface - the layer thickness alone (first layer) or thickness + a value read from the
+        cumulative column dzsum (never a single layer's own thickness, dz.sum())."""
+    from ..rdef import flow_of, ENTRY
+    ci = prog.cls("Soil")
+    al = ci.methods.get("add_layer")
+    if al is None:
+        raise AnalysisError("Soil.add_layer vanished")
+    chk.fn(al.key)
+    where = f"{al.module}:{al.qualname}"
+    flow = flow_of(al)
+    thick = al.params[1] if al.params and al.params[0] == "self" else al.params[0]
+    def unround(e):
+        if isinstance(e, ast.Call) and isinstance(e.func, ast.Name) and e.func.id == "round" and e.args:
+            return e.args[0], (norm(e.args[1]) if len(e.args) > 1 else "0")
+        return e, None
+    sites = []
+    for c in walk_no_nested(al.node):
+        if isinstance(c, ast.Compare) and len(c.ops) == 1 and isinstance(c.ops[0], (ast.GtE, ast.LtE, ast.Gt, ast.Lt)):
+            l, r = c.left, c.comparators[0]
+            lu, lr = unround(l)
+            ru, rr = unround(r)
+            if any(isinstance(x, ast.Attribute) and x.attr == "dzsum" for x in ast.walk(ru)) and not any(isinstance(x, ast.Attribute) and x.attr == "dzsum" for x in ast.walk(lu)):
+                sites.append((c, lu, lr, rr))
+            elif any(isinstance(x, ast.Attribute) and x.attr == "dzsum" for x in ast.walk(lu)) and not any(isinstance(x, ast.Attribute) and x.attr == "dzsum" for x in ast.walk(ru)):
+                sites.append((c, ru, rr, lr))
+    chk.floor("C18.e", len(sites), 2, "comparisons of a layer boundary with the compartment bottoms in add_layer")
+    roundings = {(br, dr) for _, _, br, dr in sites}
+    for c, bound, br, dr in sites:
+        construct = norm(c)[:90]
+        nid = flow.node_of(c)
+        problems = []
+        if br is None or dr is None or br != dr:
+            problems.append(f"boundary rounded to {br}, compartment bottoms to {dr}: a boundary that is a floating-point sum falls just below the compartment that "
+                            "ends on it")
+        if len(roundings) > 1:
+            problems.append(f"the branches of add_layer round differently ({sorted(map(str, roundings))})")
+        # kinds
+        terms = []
+        def flat(e):
+            if isinstance(e, ast.BinOp) and isinstance(e.op, ast.Add):
+                flat(e.left); flat(e.right)
+            else:
+                terms.append(e)
+        flat(bound)
+        others = [t for t in terms if not (isinstance(t, ast.Name) and t.id == thick)]
+        if not any(isinstance(t, ast.Name) and t.id == thick for t in terms):
+            problems.append(f"the boundary `{norm(bound)}` does not contain the layer thickness")
+        for t in others:
+            depth_kind = False
+            if isinstance(t, ast.Name) and nid is not None:
+                ds = flow.defs_reaching(t.id, nid)
+                depth_kind = bool(ds) and all(d != ENTRY and isinstance(flow.cfg.nodes[d].ast, ast.Assign)
+                                              and any(isinstance(x, ast.Attribute) and x.attr == "dzsum" for x in ast.walk(flow.cfg.nodes[d].ast.value))
+                                              for d in ds)
+            elif any(isinstance(x, ast.Attribute) and x.attr == "dzsum" for x in ast.walk(t)):
+                depth_kind = True
+            if not depth_kind:
+                problems.append(f"`{norm(t)}` is added to the thickness but is not a depth from the surface (not read from the cumulative column dzsum): for a third "
+                                "layer the boundary is too shallow and the layer loses its compartments")
+        if not others:
+            # thickness alone is a depth only for the first layer
+            first = nid is not None and any(flow.cfg.nodes[t].kind == "test" and l is True and norm(flow.cfg.nodes[t].ast).endswith("== 1")
+                                            for t, l in flow.cfg.transitive_control_deps(flow.stmt_node.get(id(_stmt_of(al, c)), nid)))
+            if not first:
+                problems.append("the thickness alone is used as the boundary outside the first-layer branch")
+        if problems:
+            chk.violation("C18.e", where, construct, "; ".join(problems), loc=al.loc(c))
+        else:
+            chk.ok("C18.e", where, construct, f"boundary is a depth from the surface, both sides rounded to {br}")
+
+
+def _stmt_of(fi, node):
+    for st in walk_no_nested(fi.node):
+        if isinstance(st, ast.stmt) and any(x is node for x in ast.walk(st)) and not isinstance(st, (ast.If, ast.For, ast.While, ast.FunctionDef)):
+            return st
+    return node
+
+
 def run(chk, prog, tier):
     rule_a(chk, prog)
     rule_b(chk, prog)
     rule_c(chk, prog)
     rule_d(chk, prog)
+    rule_e(chk, prog)
     chk.assume("A-1")
